@@ -27,6 +27,8 @@ type c17Case struct {
 	Split        int
 	PageSize     int
 	Stagger      bool // every other instance becomes ready one poll later
+	AttachFailAt int  // k-th AttachInstances call fails once (throttling-coded error); 0 = none
+	Prior        int64 // an earlier, successful fleet scale-up by this many instances on the same provider (0 = none)
 }
 
 func c17Run(p c17Case) (entries []sim.Entry, err error, before, after int64, setup error) {
@@ -63,6 +65,17 @@ func c17Run(p c17Case) (entries []sim.Entry, err error, before, after int64, set
 		if e != nil && p.DeleteFailAt == 0 {
 			return nil, nil, 0, 0, fmt.Errorf("DeleteNodes: %v", e)
 		}
+	}
+	if p.Prior > 0 {
+		if e := env.NG.IncreaseSize(p.Prior); e != nil {
+			return nil, nil, 0, 0, fmt.Errorf("prior IncreaseSize: %v", e)
+		}
+		if e := env.Prov.Refresh(); e != nil {
+			return nil, nil, 0, 0, e
+		}
+	}
+	if p.AttachFailAt > 0 {
+		env.W.D = newOccDecider().failAt(sim.OpAttach, p.AttachFailAt)
 	}
 	mark := len(env.W.J)
 	before = env.ASG.Desired
@@ -105,6 +118,17 @@ func c17Check(c *h.Collector, p c17Case) {
 		return
 	}
 	c.R.Cov["c17.accepted-cases"]++
+	if p.AttachFailAt > 0 {
+		// an attach call failed: reporting the failure is C18's subject; here only "if the scale-up is
+		// reported as done, every acquired instance was attached exactly once"
+		if err == nil {
+			_, acquired, attached, _ := fleetAlgebra(entries)
+			if len(attached) != len(acquired) {
+				report("C17/success-with-unattached-instances", fmt.Sprintf("IncreaseSize returned nil although only %d of %d acquired instances were attached", len(attached), len(acquired)))
+			}
+		}
+		return
+	}
 	if err != nil {
 		report("C17/error-on-valid-request", err.Error())
 		return
@@ -217,6 +241,14 @@ func c17Grid(t *testing.T, tier string, shard, shards int, c *h.Collector) {
 								if lc == "" && ov == 0 {
 									run(c17Case{Desired: 3, Max: 200, D: d, Fleet: true, Subnets: sn, Split: split, PageSize: ps, Stagger: true})
 								}
+								if ov == 0 && sn == 1 && split == 1 && ps == 50 {
+									for k := 1; k <= int((d+19)/20); k++ {
+										run(c17Case{Desired: 3, Max: 200, D: d, Fleet: true, Lifecycle: lc, Subnets: sn, Split: split, PageSize: ps, AttachFailAt: k})
+									}
+									for _, prior := range []int64{1, 7, 25} {
+										run(c17Case{Desired: 3, Max: 200, D: d, Fleet: true, Lifecycle: lc, Subnets: sn, Split: split, PageSize: ps, Prior: prior})
+									}
+								}
 							}
 						}
 					}
@@ -235,7 +267,7 @@ func init() {
 	register(&Check{
 		ID:    "C17",
 		Level: "exploration",
-		Rule: "every provider-level sequence Refresh ; [DeleteNodes(0..3), optionally with its k-th terminate call failing] ; IncreaseSize(d) on the real NodeGroup for desired 0..6 x max 0..7 x d -1..8; fleet mode for d in {1,19,20,21,39,40,41,59,60,61,100} x lifecycle {unset, on-demand, spot} x overrides {none, 2 types} x subnets {1,2} x fleet answer split over 1..3 instance sets x status page size {1,50} x instances ready together / every other one a poll later; " +
+		Rule: "every provider-level sequence Refresh ; [DeleteNodes(0..3), optionally with its k-th terminate call failing] ; IncreaseSize(d) on the real NodeGroup for desired 0..6 x max 0..7 x d -1..8; fleet mode for d in {1,19,20,21,39,40,41,59,60,61,100} x lifecycle {unset, on-demand, spot} x overrides {none, 2 types} x subnets {1,2} x fleet answer split over 1..3 instance sets x status page size {1,50} x instances ready together / every other one a poll later x the k-th attach call answering with a throttling error x an earlier fleet scale-up of another size on the same provider; " +
 			"recorded arguments compared with the statement; non-trivial = every sequence; distinct by its parameters",
 		Grid:        c17Grid,
 		Assumptions: append([]string{"no other actor changes the desired capacity between Refresh and the request (an absolute-set API is inherently racy with external writers; the property quantifies over inputs and configurations)"}, commonAssumptions...),
